@@ -15,7 +15,7 @@ import subprocess
 from concurrent.futures import ThreadPoolExecutor
 
 from ..engine import Violation
-from ..vbox import harness_path, RUN_ROOT
+from ..vbox import harness_path, RUN_ROOT, VERIF
 
 # (bodies, env): two calls whenever a body mentions call 2
 CONFIGS_QUICK = [
@@ -81,7 +81,7 @@ def execute(bodies, env, sched, tree='asan', free=False, timeout=30):
         args.append('free')
     e = dict(ENV)
     if tree == 'tsan':
-        e['TSAN_OPTIONS'] = 'halt_on_error=0:exitcode=97:second_deadlock_stack=1'
+        e['TSAN_OPTIONS'] = 'halt_on_error=0:exitcode=97:second_deadlock_stack=1:suppressions=' + os.path.join(VERIF, 'harness', 'tsan.supp')
     try:
         p = subprocess.run(args, stdout=subprocess.PIPE, stderr=subprocess.PIPE, timeout=timeout, env=e)
     except subprocess.TimeoutExpired as ex:
